@@ -197,7 +197,7 @@ def sentinel(w):
 
 def run(tier, seed):
     rep = Report("C11", tier, seed, "exploration")
-    n, nops = (48, 14) if tier == "quick" else (3000, 20)
+    n, nops = (160, 14) if tier == "quick" else (3000, 20)
     rep.rule = ("tables l, r of 0..2600 rows filled by inserts of 1/7/300/1024/1025 rows (chunking), keys over small domains with "
                 "NULLs and duplicates, INT vs BIGINT keys, 1-2 key columns, residual conditions on semi/anti joins; operators: 6 "
                 "join types x {nested-loop, hash, merge}, aggregation {simple, hash, sort} with sum/count/min/max/count distinct, "
